@@ -1,4 +1,5 @@
 """Per-property configuration of ./check."""
+from checklib import core as _core
 
 UTF8 = "A-utf8: ranging over a Go string yields each ASCII byte as itself and every other byte as a rune >= 0x80"
 
@@ -189,6 +190,19 @@ PROPS["C09"] = {
     "technique": "Lean 4 proof of the data-model round trip (decodeSpec . encodeSpec = id for every typed Spec; tags agree) parametric in a text-codec law + translation validation of that law: whole-system WriteSpec/ReadSpec round trips and a sweep of the string space through both real codecs",
     "level_text": "Kernel-checked: the json and yaml struct tags coincide for every field (regenerated table), and for every value of the Go type cdi.Spec - all optional fields, nil entries, integer extremes - decoding the JSON value the library encodes returns exactly that Spec; hence with any text codec that preserves the document, the file written under a .json, .yaml or extension-less name reads back equal and both encodings are interchangeable. The codec law itself is third-party behaviour and is validated, not proved: every run writes Specs filled with YAML-sensitive spellings and integer extremes through Cache.WriteSpec under all three kinds of name and reads them back with cdi.ReadSpec and through a cache, and sweeps every BMP code point (and samples of the other planes) in several contexts through both writer/reader pairs. The sweep pins two classes of strings that do not survive (known findings); any other failure is a violation.",
     "level_note": "Partial: string survival in the text codecs is tested, not proved. Known findings: JSON files with U+007F-U+009F/U+FFFE/U+FFFF; YAML files with multi-line strings starting with a space or line break.",
+}
+
+PROPS["C19"] = {
+    "level": "translation_validation",
+    "streams": ["cli"],
+    "prebuild": [_core.build_cli],
+    "timeout": 1800,
+    "trusted_base": ["cobra/pflag option parsing; the JSON/YAML pretty-printers of the inject command (third-party)",
+                     "factgen F10: which cache the helpers consult and whether --spec-dirs configures it"],
+    "assumptions": ["directory names contain no comma (pflag StringSlice)"],
+    "technique": "translation validation of the rebuilt cdi/validate binaries against in-process library calls through the Lean renderers (listing lines, error files, exit status) + Lean theorems: renderers are injective, exit status iff errors; fact obligation on the cache wiring",
+    "level_text": "On every run the cdi and validate binaries are rebuilt from /repo. For generated directory populations (the C01 layouts incl. invalid files, conflicts, missing directories) each listing sub-command is run with --spec-dirs and its stdout must equal the Lean renderer applied to what the library computes in-process for the same directories; when the library reports cache errors the tool must exit non-zero and name exactly the files in error, otherwise exit zero. `cdi inject` output is parsed back and compared with library injection of the glob-selected devices. The validate tool's exit status is compared with schema validation of the same document for the builtin and none schemas, JSON and YAML. Kernel-checked theorems: each renderer is injective (the printed listing determines the list), and the exit-status functions are exact; a regenerated fact states that the sub-commands read the cache that --spec-dirs configures.",
+    "level_note": "Partial: cobra parsing and the pretty-printers are third-party and only exercised. Trusted: Lean kernel for the renderer theorems; factgen F10.",
 }
 
 NOT_APPLICABLE = {}
